@@ -43,7 +43,11 @@ ASSUMPTIONS = ["mask[i,j,k]: axis 0 = x, 1 = y, 2 = z; centre/radii given per ax
                "the name-based generator is judged on the box it returns (cubic, default centre); the box size itself is not part of the statement",
                "subtraction of more than two binary masks = sequential AND-NOT (docstring: order of the list); difference judged as XOR for pairs only",
                "rotated masks (angles != 0) are outside C13 (C14); Gaussian widths above 3 and boxes outside 6..48 are not judged",
-               "binary = every value exactly 0 or 1; soft list entries lie in [0,1]"]
+               "binary = every value exactly 0 or 1; soft list entries lie in [0,1]",
+               "mask_size / center / radii given as a numpy integer scalar (np.int64(12)) or a 0-d array is an input FORM outside the quantifier "
+               "(get_correct_format of the unchanged tree raises on it): never generated, counted out-of-domain by the monitors; Python int/float, "
+               "np.float64, lists, tuples and 1-d arrays of any integer/float dtype, read-only or strided, are inside and judged",
+               "boolean options and numbers are also passed as np.True_/np.bool_/1/0/0-d arrays resp. numpy scalars; a truthy flag requests the outward mode"]
 
 CLASSES = ["sphere_interior", "sphere_boundary", "sphere_defaults", "cyl_interior", "cyl_z_crossing", "cyl_boundary_xy",
            "ell_even", "ell_ties", "ell_eccentric", "s_shell", "e_shell", "named",
@@ -521,17 +525,90 @@ def _sigma(rng):
     return s
 
 
+FLAG_KINDS = ["py", "np", "np_ctor", "int", "comparison", "0d", "element"]
+NUM_KINDS = ["py", "py", "np64", "np32", "0d"]
+ARRAY_KINDS = ["array", "array32", "array_i16", "array_i8", "array_u8", "array_f32", "array_f64", "array_ro", "array_neg", "array_strided"]
+
+
+def make_flag(value, kind):
+    """the same boolean option as a Python bool, a numpy boolean (literal, constructor, result of a comparison, element of a
+    boolean array), the integers 1/0 or a 0-d array"""
+    value = bool(value)
+    if kind == "np":
+        return np.True_ if value else np.False_
+    if kind == "np_ctor":
+        return np.bool_(value)
+    if kind == "int":
+        return 1 if value else 0
+    if kind == "comparison":
+        return np.array([3.0])[0] > (0 if value else 5)
+    if kind == "0d":
+        return np.array(value)
+    if kind == "element":
+        return np.array([value, not value])[0]
+    return value
+
+
+def make_num(v, kind):
+    """the same number as a Python scalar, numpy 64/32-bit scalar or 0-d array"""
+    if v is None or kind == "py":
+        return v
+    isint = isinstance(v, (int, np.integer))
+    if kind == "np64":
+        return np.int64(v) if isint else np.float64(v)
+    if kind == "np32":
+        return np.int32(v) if isint else np.float32(v)
+    return np.array(v)
+
+
+def make_sigma(s, kind):
+    if s == 0:
+        return {"py": 0, "np64": np.float64(0), "np32": np.int64(0), "0d": np.array(0.0), "negzero": -0.0, "pyfloat": 0.0}[kind]
+    return make_num(s, kind if kind in ("py", "np64", "np32", "0d") else "py")
+
+
+def as_array(vals, how):
+    vals = [int(v) for v in vals]
+    if how == "array32":
+        return np.array(vals, dtype=np.int32)
+    if how == "array_i16":
+        return np.array(vals, dtype=np.int16)
+    if how == "array_i8":
+        return np.array(vals, dtype=np.int8)
+    if how == "array_u8":
+        return np.array(vals, dtype=np.uint8)
+    if how == "array_f32":
+        return np.array(vals, dtype=np.float32)
+    if how == "array_f64":
+        return np.array(vals, dtype=np.float64)
+    if how == "array_ro":
+        a = np.array(vals, dtype=np.int64)
+        a.setflags(write=False)
+        return a
+    if how == "array_neg":
+        return np.array(vals[::-1], dtype=np.int64)[::-1]
+    if how == "array_strided":
+        big = np.full(6, -7, dtype=np.int64)
+        big[::2] = vals
+        return big[::2]
+    return np.array(vals, dtype=np.int64)
+
+
 def _soft_calls(rng, shell=False):
+    def gk(hard):
+        return str(rng.choice(["py", "np64", "np32", "0d", "negzero", "pyfloat"] if hard else ["py", "py", "np64", "np32", "0d"]))
     if shell:
-        return [{"sigma": 0}, {"sigma": _sigma(rng)}]
-    return [{"sigma": 0, "outwards": bool(rng.integers(0, 2))}, {"sigma": _sigma(rng), "outwards": True},
-            {"sigma": _sigma(rng), "outwards": False}]
+        return [{"sigma": 0, "gk": gk(True)}, {"sigma": _sigma(rng), "gk": gk(False)}]
+    fk = [str(rng.choice(FLAG_KINDS)) for _ in range(3)]
+    return [{"sigma": 0, "outwards": bool(rng.integers(0, 2)), "flag": fk[0], "gk": gk(True)},
+            {"sigma": _sigma(rng), "outwards": True, "flag": fk[1], "gk": gk(False)},
+            {"sigma": _sigma(rng), "outwards": False, "flag": fk[2], "gk": gk(False)}]
 
 
 def _size_fmt(rng, N):
-    if N[0] == N[1] == N[2]:
-        return str(rng.choice(["int", "list1", "list", "tuple", "array", "float"]))
-    return str(rng.choice(["list", "tuple", "array", "array32", "floatlist"]))
+    if N[0] == N[1] == N[2] and rng.random() < 0.6:
+        return str(rng.choice(["int", "list1", "list", "tuple", "array", "float", "npfloat"]))
+    return str(rng.choice(["list", "tuple", "floatlist"] + ARRAY_KINDS))
 
 
 def fmt_size(N, how):
@@ -545,17 +622,21 @@ def fmt_size(N, how):
         return [int(v) for v in N]
     if how == "tuple":
         return tuple(int(v) for v in N)
-    if how == "array32":
-        return np.array(N, dtype=np.int32)
+    if how == "npfloat":
+        return np.float64(N[0])
     if how == "floatlist":
         return [float(v) for v in N]
-    return np.array(N, dtype=np.int64)
+    return as_array(N, how)
 
 
 def fmt_centre(c, how):
     if c is None:
         return None
-    return {"list": list(c), "tuple": tuple(c), "array": np.array(c)}[how]
+    if how == "list":
+        return [int(v) for v in c]
+    if how == "tuple":
+        return tuple(int(v) for v in c)
+    return as_array(c, how)
 
 
 TIE_RADII = [(5, 5, 5), (5, 10, 13), (10, 10, 5), (13, 13, 13), (15, 20, 25), (25, 25, 7), (17, 17, 17), (10, 26, 10), (3, 4, 5),
@@ -702,7 +783,9 @@ def gen_shape(rng, cls, tier):
     if "sigma_out" in case:
         case["calls"][1]["sigma"] = case.pop("sigma_out")
     case["size_fmt"] = _size_fmt(rng, N)
-    case["centre_fmt"] = str(rng.choice(["list", "tuple", "array"]))
+    case["centre_fmt"] = str(rng.choice(["list", "tuple"] + ARRAY_KINDS))
+    case["radii_fmt"] = str(rng.choice(["list", "tuple"] + ARRAY_KINDS))
+    case["num_kind"] = str(rng.choice(NUM_KINDS))
     # non-triviality from the analytic shape
     c = case["centre"] or tuple(n // 2 for n in N)
     F = O.Fraction
@@ -724,7 +807,7 @@ def gen_shape(rng, cls, tier):
         exp = None
     case["n_in"] = int(exp.sum()) if exp is not None else -1
     case["n_vox"] = int(np.prod(N))
-    case["summary"] = {k: case.get(k) for k in ("fn", "N", "centre", "centre_kind", "r", "h", "radii", "t", "calls", "size_fmt", "centre_fmt", "near") if k in case}
+    case["summary"] = {k: case.get(k) for k in ("fn", "N", "centre", "centre_kind", "r", "h", "radii", "t", "calls", "size_fmt", "centre_fmt", "radii_fmt", "num_kind", "near") if k in case}
     return case
 
 
@@ -773,12 +856,17 @@ def gen_named(rng, tier, i):
 
 
 # ---- mask lists ----------------------------------------------------------------------------------------------
-BIN_DTYPES = ["float64", "float32", "int64", "int32", "uint8", "bool", "int8"]
+BIN_DTYPES = ["float64", "float32", "int64", "int32", "uint8", "bool", "int8", "int16"]
 
 
 def _binary_shape(rng, N):
     """an own binary mask (bool) built with the oracle shapes / random voxels; deliberately overlapping others"""
-    k = str(rng.choice(["sphere", "cyl", "ell", "half", "noise", "noise"]))
+    k = str(rng.choice(["sphere", "cyl", "ell", "half", "noise", "noise", "sphere", "cyl", "ell", "half", "noise", "noise", "zeros", "ones", "one_voxel"]))
+    if k in ("zeros", "ones", "one_voxel"):                  # value-specific: empty, full, single-voxel masks
+        b = np.full(N, k == "ones", dtype=bool)
+        if k == "one_voxel":
+            b[tuple(int(rng.integers(0, n)) for n in N)] = True
+        return b, k
     c = tuple(int(rng.integers(n // 4, max(n // 4 + 1, (3 * n) // 4))) for n in N)
     if k == "sphere":
         return O.sphere(N, c, O.Fraction(int(rng.integers(2, max(3, max(N) // 2)))))[0], k
@@ -838,8 +926,8 @@ def gen_algebra(rng, cls, tier):
                     dt = str(rng.choice(BIN_DTYPES))
                 e.update(kind="bin:" + sk, dtype=dt)
                 e["arr"] = b.astype(dt)
-            if cls == "alg_dtypes" and rng.random() < 0.25:
-                e["layout"] = str(rng.choice(["F", "view"]))
+            if rng.random() < (0.5 if cls == "alg_dtypes" else 0.25):
+                e["layout"] = str(rng.choice(["F", "view", "swap", "neg", "ro", "T"]))
             if cls == "alg_files" and (k == 0 or rng.random() < 0.7):
                 ext = str(rng.choice(["mrc", "em"]))
                 if e["kind"].startswith("soft"):
@@ -848,7 +936,7 @@ def gen_algebra(rng, cls, tier):
                     code = int(rng.choice([2, 0, 1, 6])) if ext == "mrc" else int(rng.choice([5, 1, 2, 4, 9]))
                 e.update({"as": ext, "code": code})
         ents.append(e)
-    case = {"family": "algebra", "N": N, "ents": ents, "with_output": bool(rng.random() < 0.1)}
+    case = {"family": "algebra", "N": N, "ents": ents, "with_output": bool(rng.random() < 0.3)}
     case["summary"] = {"N": N, "masks": [{k: (v if k != "arr" else int(np.count_nonzero(v))) for k, v in e.items()} for e in ents]}
     bins = [e["arr"] != 0 for e in ents if "arr" in e]
     case["partial_overlap"] = cls == "alg_real_outputs" or (
@@ -933,25 +1021,28 @@ def call_shape(ctx, case, call):
     size = fmt_size(case["N"], case["size_fmt"])
     centre = fmt_centre(case["centre"], case["centre_fmt"])
     fn = case["fn"]
-    g = call["sigma"]
+    g = make_sigma(call["sigma"], call.get("gk", "py"))
+    nk = case.get("num_kind", "py")
+    if fn in ("s_shell", "e_shell"):
+        t = make_num(case["t"], nk)
+        if fn == "s_shell":
+            return ctx.call("spherical_shell_mask", cm.spherical_shell_mask, size, t, radius=make_num(case["r"], nk), center=centre, gaussian=g)
+        return ctx.call("ellipsoid_shell_mask", cm.ellipsoid_shell_mask, size, t, list(case["radii"]), center=centre, gaussian=g)
+    ow = make_flag(call["outwards"], call.get("flag", "py"))
     if fn == "sphere":
-        return ctx.call("spherical_mask", cm.spherical_mask, size, radius=case["r"], center=centre, gaussian=g,
-                        gaussian_outwards=call["outwards"])
+        return ctx.call("spherical_mask", cm.spherical_mask, size, radius=make_num(case["r"], nk), center=centre, gaussian=g,
+                        gaussian_outwards=ow)
     if fn == "cylinder":
         kw = {}
         if case["i"] % 3 == 0:
             kw["angles"] = [None, np.zeros(3), [0, 0, 0]][(case["i"] // 3) % 3]
-        return ctx.call("cylindrical_mask", cm.cylindrical_mask, size, radius=case["r"], height=case["h"], center=centre, gaussian=g,
-                        gaussian_outwards=call["outwards"], **kw)
-    if fn == "ellipsoid":
-        radii = case["radii"]
-        if isinstance(radii, tuple) and case["i"] % 2:
-            radii = np.array(radii)
-        return ctx.call("ellipsoid_mask", cm.ellipsoid_mask, size, radii=radii, center=centre, gaussian=g,
-                        gaussian_outwards=call["outwards"])
-    if fn == "s_shell":
-        return ctx.call("spherical_shell_mask", cm.spherical_shell_mask, size, case["t"], radius=case["r"], center=centre, gaussian=g)
-    return ctx.call("ellipsoid_shell_mask", cm.ellipsoid_shell_mask, size, case["t"], list(case["radii"]), center=centre, gaussian=g)
+        return ctx.call("cylindrical_mask", cm.cylindrical_mask, size, radius=make_num(case["r"], nk), height=make_num(case["h"], nk),
+                        center=centre, gaussian=g, gaussian_outwards=ow, **kw)
+    radii = case["radii"]
+    if isinstance(radii, tuple):
+        how = case.get("radii_fmt", "tuple")
+        radii = list(radii) if how == "list" else radii if how == "tuple" else as_array(radii, how)
+    return ctx.call("ellipsoid_mask", cm.ellipsoid_mask, size, radii=radii, center=centre, gaussian=g, gaussian_outwards=ow)
 
 
 def run_shape(ctx, case):
@@ -998,9 +1089,9 @@ def run_named(ctx, case):
     cm = ctx.cmk
     kw = {}
     if case["mask_size"] is not None:
-        kw["mask_size"] = case["mask_size"]
+        kw["mask_size"] = [int, int, float, np.float64][(case["i"] // len(CLASSES)) % 4](case["mask_size"])
     if case["expansion"] is not None:
-        kw["mask_expansion"] = case["expansion"]
+        kw["mask_expansion"] = [int, np.int64][(case["i"] // len(CLASSES)) % 2](case["expansion"])
     ok, res = ctx.call("generate_mask", cm.generate_mask, case["name"], **kw)
     if not ok:
         return
@@ -1023,6 +1114,24 @@ def run_named(ctx, case):
     if ok:
         good = _same(a, d)
         ctx.check("name_vs_direct", good, None if good else dict(_first_diff(a, d), name=case["name"], mask_size=case["mask_size"], box=n))
+
+
+STEMS = {"em": ["ribosome", "frame", "em", "meme", "x.mrc", "m a*?", "m\u00e4sk_\u00e9", "[1]", "plain"],
+         "mrc": ["arc", "mcr", "crm", "mrc", "frame.em", "m a*?", "m\u00e4sk_\u00e9", "[1]", "a.b", "plain"]}
+SUBDIRS = ["", "sub dir", os.path.join("d\u00e9p\u00f4t [2]", "x?"), ""]
+
+
+def mask_path(ctx, i, k, ext, tag="m"):
+    """file names whose stem ends in the letters of the extension, with spaces / glob characters / non-ASCII letters, in
+    sub-directories, absolute or relative to the working directory (the shard's scratch directory)"""
+    stem = STEMS[ext][(i // len(CLASSES) + k) % len(STEMS[ext])]
+    sub = SUBDIRS[(i // (3 * len(CLASSES)) + k) % len(SUBDIRS)]
+    d = os.path.join(ctx.scratch, sub)
+    os.makedirs(d, exist_ok=True)
+    p = os.path.join(d, "%s%d_%d_%s.%s" % (tag, i, k, stem, ext))
+    if (i // len(CLASSES) + k) % 3 == 0 and os.path.realpath(os.getcwd()) == os.path.realpath(ctx.scratch):
+        p = os.path.relpath(p, os.getcwd())
+    return p
 
 
 def build_masks(ctx, case):
@@ -1055,13 +1164,21 @@ def build_masks(ctx, case):
             a = arr.copy()
             if e["layout"] == "F":
                 a = np.asfortranarray(a)
+            elif e["layout"] == "swap":                        # partially permuted axes: a swapaxes view holding the same values
+                a = np.swapaxes(np.ascontiguousarray(np.swapaxes(a, 1, 2)), 1, 2)
+            elif e["layout"] == "neg":                         # negative strides
+                a = np.ascontiguousarray(a[::-1, :, ::-1])[::-1, :, ::-1]
+            elif e["layout"] == "T":
+                a = np.ascontiguousarray(a.transpose(2, 1, 0)).T
+            elif e["layout"] == "ro":
+                a.setflags(write=False)
             elif e["layout"] == "view":
                 big = np.zeros(tuple(2 * n for n in arr.shape), dtype=arr.dtype)
                 big[::2, ::2, ::2] = arr
                 a = big[::2, ::2, ::2]
             out.append(a)
         else:
-            p = os.path.join(ctx.scratch, "m%d_%d.%s" % (case["i"], k, e["as"]))
+            p = mask_path(ctx, case["i"], k, e["as"])
             if e["as"] == "mrc":
                 files.write_mrc_raw(p, arr.astype(files.MRC_MODES[e["code"]]), mode=e["code"])
             else:
@@ -1084,7 +1201,7 @@ def run_algebra(ctx, case):
     elif len(ml) == 2:
         lists.append([ml[1], ml[0]])
     any_file = any(isinstance(m, str) for m in ml)
-    outp = os.path.join(ctx.scratch, "out_%d.mrc" % case["i"]) if case["with_output"] else None
+    outp = mask_path(ctx, case["i"], 9, ["mrc", "em"][case["i"] % 2], tag="out") if case["with_output"] else None
     for li, lst in enumerate(lists):
         if li and li % 2 == 0:
             lst = tuple(lst)
@@ -1100,6 +1217,15 @@ def run_algebra(ctx, case):
                     good = _same(res, res2)
                     ctx.check("file_vs_array", good, None if good else dict(_first_diff(res, res2), op=name,
                                                                             entries=[m if isinstance(m, str) else str(m.dtype) for m in lst]))
+    # objects produced by one operation fed into another (judged by the call monitors like fresh inputs)
+    oku, u = ctx.call("union", cm.union, ml)
+    oki, n_ = ctx.call("intersection", cm.intersection, ml)
+    if oku and oki:
+        ctx.call("difference", cm.difference, [u, n_])
+        ctx.call("subtraction", cm.subtraction, [u, n_])
+        first = ml[0] if isinstance(ml[0], np.ndarray) else u
+        ctx.call("intersection", cm.intersection, [u, first])
+        ctx.call("union", cm.union, [n_, first, u])
     for m in ml:
         if isinstance(m, str):
             try:
@@ -1161,7 +1287,7 @@ def run_history(ctx, case):
             st["r"] += d
             st["h"] += d
         call(0)
-        call(case["sigma"], outwards=bool(a % 2))
+        call(case["sigma"], outwards=make_flag(bool(a % 2), FLAG_KINDS[(case["i"] // len(CLASSES) + a) % len(FLAG_KINDS)]))
 
 
 def run_case(ctx, case):
@@ -1230,9 +1356,10 @@ def _shape_battery(ctx, rng, N, c, a, soft):
             ctx.call("ellipsoid_mask", cm.ellipsoid_mask, size)
             n_calls += 1
     if soft:
-        ctx.call("spherical_mask", cm.spherical_mask, size, radius=r, center=cen, gaussian=0.6)
+        fk = [str(rng.choice(FLAG_KINDS)) for _ in range(2)]
+        ctx.call("spherical_mask", cm.spherical_mask, size, radius=r, center=cen, gaussian=0.6, gaussian_outwards=make_flag(True, fk[0]))
         ctx.call("cylindrical_mask", cm.cylindrical_mask, size, radius=r if a < 2 else big, height=2 * N[2] + 1 if a < 2 else 2 * r, center=cen,
-                 gaussian=0.6)
+                 gaussian=0.6, gaussian_outwards=make_flag(True, fk[1]))
         n_calls += 2
     if even:
         radii = [m + 2 for m in N]
@@ -1241,7 +1368,8 @@ def _shape_battery(ctx, rng, N, c, a, soft):
         ctx.call("ellipsoid_shell_mask", cm.ellipsoid_shell_mask, size, 2, [v - 1 for v in radii], center=cen)
         n_calls += 2
         if soft:
-            ctx.call("ellipsoid_mask", cm.ellipsoid_mask, size, radii=radii, center=cen, gaussian=0.6, gaussian_outwards=bool(rng.integers(0, 2)))
+            ctx.call("ellipsoid_mask", cm.ellipsoid_mask, size, radii=radii, center=cen, gaussian=0.6,
+                     gaussian_outwards=make_flag(bool(rng.integers(0, 2)), str(rng.choice(FLAG_KINDS))))
             n_calls += 1
     return n_calls
 
